@@ -63,3 +63,62 @@ package utils
 //@ func ReadRequest props(C01,C04,C07)
 //@   requires client != nil
 //@   assigns heap
+
+// ---- streamingResponseWriter (C03, C05) ----
+// mustDrop: the hop-by-hop names of RFC 7230 section 6.1 in canonical form (from the property);
+// mayDrop additionally allows the non-standard Proxy-Connection, which the agent's table also removes.
+//@ pure mustDrop(k string) bool = k == "Connection" || k == "Keep-Alive" || k == "Proxy-Authenticate" || k == "Proxy-Authorization" || k == "Te" || k == "Trailer" || k == "Transfer-Encoding" || k == "Upgrade"
+//@ pure mayDrop(k string) bool = mustDrop(k) || k == "Proxy-Connection"
+//@ pure canonKeys(h ref) bool = forall_str(k, in(k, h) ==> canon(k) == k)
+//@ spec declAt(vals ref, a int, b int) string = canon(trimSpace(partOf(vals[a], ",", b)))
+//@ spec declValid(vals ref, a int, b int) bool = 0 <= a && a < len(vals) && 0 <= b && b < nparts(vals[a], ",")
+//@ pure declSeen(a int, b int, i1 int, i2 int) bool = a < i1 || (a == i1 && b <= i2)
+//@ pure declared(vals ref, t string, i1 int, i2 int) bool = exists_int(a, exists_int(b, declValid(vals, a, b) && declSeen(a, b, i1, i2) && t == declAt(vals, a, b))) && t != "" && !mayDrop(t)
+
+//@ func (*streamingResponseWriter).WriteHeader props(C03,C05,C07)
+//@   requires w != nil && w.r != nil && w.header != nil && canonKeys(w.header) && w.respChan != nil && !closed(w.respChan) && w.bodyReader != nil
+//@   assigns w.wroteHeader, w.trailer, w.header
+//@   ghost sent int = 0
+//@   ghost aborted bool = false
+//@   call (*io.PipeReader).Close
+//@     do aborted = true
+//@   call (http.Header).Add
+//@     assert[C03:values-copied-in-order] arg0 == header && arg1 == k && !mayDrop(k) && in(k, old(w.header)) && 0 <= idx && idx < len(old(w.header)[k]) && arg2 == old(w.header)[k][idx] && (idx == 0 || (in(k, header) && len(header[k]) == idx)) && (idx > 0 || !in(k, header))
+//@   send respChan
+//@     assert[C03:interim-not-final] !(100 <= status && status <= 199)
+//@     assert[C03:commit-once] !old(w.wroteHeader) && sent == 0 && arg0 == w.respChan
+//@     assert[C03:status-forwarded] arg1.StatusCode == status
+//@     assert[C03:hop-by-hop-removed] forall_str(k, mustDrop(k) ==> !in(k, arg1.Header))
+//@     assert[C03:end-to-end-value-counts] forall_str(k, !mayDrop(k) ==> (in(k, arg1.Header) ==> in(k, old(w.header)) && len(arg1.Header[k]) == len(old(w.header)[k]))
+//@     |   && (!in(k, arg1.Header) ==> !in(k, old(w.header)) || len(old(w.header)[k]) == 0))
+//@     assert[C03:nothing-added] forall_str(k, in(k, arg1.Header) ==> in(k, old(w.header)))
+//@     assert[C03:trailer-keys] forall_str(t, in(t, arg1.Trailer) <==> old(declared(values(w.header, "Trailer"), t, len(values(w.header, "Trailer")), -1)))
+//@     assert[C03:trailers-start-empty] forall_str(t, in(t, arg1.Trailer) ==> len(arg1.Trailer[t]) == 0)
+//@     assert[C03:header-handed-over] arg1.Header == w.header && arg1.Trailer == w.trailer
+//@     do sent = sent + 1
+//@   ensures[C03:interim-does-not-commit] 100 <= status && status <= 199 ==> sent == 0 && w.wroteHeader == old(w.wroteHeader) && w.header == old(w.header)
+//@   ensures[C03:second-call-is-noop] old(w.wroteHeader) ==> sent == 0 && w.header == old(w.header) && w.trailer == old(w.trailer)
+//@   ensures[C05:offered-inside-writeheader] !old(w.wroteHeader) && !(100 <= status && status <= 199) ==> w.wroteHeader && (sent == 1 || aborted)
+//@   loop 1
+//@     assigns mapof(w.trailer)
+//@     invariant[C03:t-decl-outer] w.trailer != nil && w.trailer != old(w.header) && w.header == old(w.header) && !allocated0(w.trailer)
+//@     invariant[C03:t-keys-outer] forall_str(t, in(t, w.trailer) <==> old(declared(values(w.header, "Trailer"), t, idx + 1, -1)))
+//@     invariant[C03:t-empty-outer] forall_str(t, in(t, w.trailer) ==> len(w.trailer[t]) == 0)
+//@   loop 2
+//@     assigns mapof(w.trailer)
+//@     invariant[C03:t-decl-inner] w.trailer != nil && w.trailer != old(w.header) && w.header == old(w.header) && !allocated0(w.trailer) && 0 <= idx1 && idx1 < old(len(values(w.header, "Trailer"))) && v == old(values(w.header, "Trailer")[idx1])
+//@     invariant[C03:t-keys-inner] forall_str(t, in(t, w.trailer) <==> old(declared(values(w.header, "Trailer"), t, idx1, idx)))
+//@     invariant[C03:t-empty-inner] forall_str(t, in(t, w.trailer) ==> len(w.trailer[t]) == 0)
+//@   loop 3
+//@     assigns mapof(header)
+//@     invariant[C03:h-fresh] header != nil && !allocated0(header) && header != w.trailer && w.header == old(w.header) && canonKeys(old(w.header))
+//@     invariant[C03:h-drop] forall_str(k, in(k, header) ==> !mayDrop(k) && in(k, old(w.header)) && visited[k])
+//@     invariant[C03:h-keep] forall_str(k, visited[k] && !mayDrop(k) && len(old(w.header)[k]) > 0 ==> in(k, header))
+//@     invariant[C03:h-vals] forall_str(k, in(k, header) ==> len(header[k]) == len(old(w.header)[k]))
+//@   loop 4
+//@     assigns mapof(header)
+//@     invariant[C03:v-fresh] header != nil && !allocated0(header) && header != w.trailer && w.header == old(w.header) && !mayDrop(k) && in(k, old(w.header)) && visited[k] && vs == old(w.header)[k] && canon(k) == k
+//@     invariant[C03:v-others-a] forall_str(k2, k2 != k && in(k2, header) ==> !mayDrop(k2) && in(k2, old(w.header)) && visited[k2])
+//@     invariant[C03:v-others-b] forall_str(k2, k2 != k && visited[k2] && !mayDrop(k2) && len(old(w.header)[k2]) > 0 ==> in(k2, header))
+//@     invariant[C03:v-others-c] forall_str(k2, k2 != k && in(k2, header) ==> len(header[k2]) == len(old(w.header)[k2]))
+//@     invariant[C03:v-this] (idx >= 0 ==> in(k, header)) && (idx == -1 ==> !in(k, header)) && (in(k, header) ==> len(header[k]) == idx + 1)
